@@ -201,7 +201,13 @@ func (e *Engine) setPath(v string, root types.Type, path []int, nv string) strin
 
 // ---- pointer load/store
 
-func (e *Engine) ptrElemType(p *Ptr) types.Type { return fieldTypeAt(p.Root, p.Path) }
+func (e *Engine) ptrElemType(p *Ptr) types.Type {
+	if p.Kind == pFieldElem {
+		at := p.Root.Underlying().(*types.Struct).Field(p.Path[0]).Type().Underlying().(*types.Array)
+		return fieldTypeAt(at.Elem(), p.Path[1:])
+	}
+	return fieldTypeAt(p.Root, p.Path)
+}
 
 func (e *Engine) loadPtr(st *State, p *Ptr) Val {
 	typ := e.ptrElemType(p)
@@ -230,6 +236,12 @@ func (e *Engine) loadPtr(st *State, p *Ptr) Val {
 		h := e.heapGet(st, name, sort)
 		v := fmt.Sprintf("(select (select %s %s) %s)", h, p.Ref, p.Idx)
 		return e.loaded(st, term(e.getPath(v, p.Root, p.Path), typ))
+	case pFieldElem:
+		name, sort := e.fieldMapName(p.Root, p.Path[0])
+		h := e.heapGet(st, name, sort)
+		at := p.Root.Underlying().(*types.Struct).Field(p.Path[0]).Type().Underlying().(*types.Array)
+		v := fmt.Sprintf("(select (select %s %s) %s)", h, p.Ref, p.Idx)
+		return e.loaded(st, term(e.getPath(v, at.Elem(), p.Path[1:]), typ))
 	case pBox:
 		if at, ok := p.Root.Underlying().(*types.Array); ok && len(p.Path) == 0 {
 			name, sort := e.arrMapName(at.Elem())
@@ -309,6 +321,16 @@ func (e *Engine) storePtr(st *State, p *Ptr, v Val) {
 			nv = e.setPath(cur, ft, p.Path[1:], tv)
 		}
 		e.heapSet(st, name, sort, fmt.Sprintf("(store %s %s %s)", h, p.Ref, nv))
+	case pFieldElem:
+		name, sort := e.fieldMapName(p.Root, p.Path[0])
+		h := e.heapGet(st, name, sort)
+		at := p.Root.Underlying().(*types.Struct).Field(p.Path[0]).Type().Underlying().(*types.Array)
+		nv := tv
+		if len(p.Path) > 1 {
+			cur := fmt.Sprintf("(select (select %s %s) %s)", h, p.Ref, p.Idx)
+			nv = e.setPath(cur, at.Elem(), p.Path[1:], tv)
+		}
+		e.heapSet(st, name, sort, fmt.Sprintf("(store %s %s (store (select %s %s) %s %s))", h, p.Ref, h, p.Ref, p.Idx, nv))
 	case pElem:
 		name, sort := e.arrMapName(p.Root)
 		h := e.heapGet(st, name, sort)
